@@ -177,7 +177,23 @@ def m_configs(rnd, prog, prop, tier):
 def gen_batch(prop, tier, seed):
     rnd = random.Random(seed * 7919 + (12 if prop == "C12" else 17))
     n = N_PROGRAMS[tier]
-    programs = [mgen.gen_program(rnd, f"{prop}-m{k}", f"prog_{k:03d}") for k in range(n)]
+    # binaries of all batches land in one target directory: crate names are unique per batch
+    crate = lambda k: f"{prop.lower()}{tier[0]}_{k:03d}"
+    programs = [mgen.gen_program(rnd, f"{prop}-m{k}", crate(k)) for k in range(n)]
+    # the quantifier asks for argument lists of length 0..30: make sure a long and an empty one are present
+    def longest(p):
+        return max([len(b.get("args", [])) for b in p["benches"] if b["kind"] == "args"] + [-1])
+    def has_empty(p):
+        return any(b["kind"] == "args" and not b["args"] for b in p["benches"])
+    for _ in range(300):
+        if any(longest(p) >= 20 for p in programs):
+            break
+        programs[0] = mgen.gen_program(rnd, f"{prop}-m0", crate(0))
+    slot = next((k for k, p in enumerate(programs) if longest(p) < 20), 0)
+    for _ in range(300):
+        if any(has_empty(p) for p in programs):
+            break
+        programs[slot] = mgen.gen_program(rnd, f"{prop}-m{slot}", crate(slot))
     return rnd, programs
 
 
@@ -376,11 +392,40 @@ def run(prop, tier, seed):
         "a generic function whose types / consts list is empty must register no instance; whether a childless group entry for the function itself remains is not observable in any run and is left open",
     ]
     run_macro_level(res, prop, tier, seed)
+    if prop == "C12":
+        push_order_level(res, tier, seed)
     return res.finish()
+
+
+def push_order_level(res, tier, seed):
+    """"...does not depend on link or constructor order": the order in which
+    pre-main constructors push entries cannot be steered in a compiled crate,
+    so the same programs are registered at run time (back-end R) in several
+    permuted orders; every run must satisfy the same specification, which
+    does not mention the order."""
+    rnd = random.Random(seed * 31 + 5)
+    runs = []
+    for k in range({"quick": 12, "thorough": 80}[tier]):
+        prog = progs.gen_program(rnd, f"o{k}", roots=2 if rnd.random() < 0.15 else 1)
+        cfg = progs.gen_config(rnd, prog, action=rnd.choice(["test", "list", "list_terse"]),
+                               paths=check_runner.display_paths(prog))
+        for perm in range(3):
+            p2 = copy.deepcopy(prog)
+            if perm == 1:
+                p2["push"].reverse()
+            elif perm == 2:
+                rnd.shuffle(p2["push"])
+            runs.append((p2, cfg, f"C12-o{k}p{perm}"))
+    by_name = {name: (prog, cfg) for prog, cfg, name in runs}
+    path, recs = check_runner.execute(runs, "C12.order")
+    res.extra["push_order_level"] = {"programs": len(runs) // 3, "orders_each": 3, "runs": len(runs)}
+    check_runner.validate_runs(res, "C12", path, "order:impl->spec", by_name, max_rounds=6)
 
 
 def replay(prop, path):
     obj = json.load(open(path))
+    if (obj.get("program") or {}).get("backend") != "M":
+        return check_runner.replay(prop, path)      # a run of the push-order level (back-end R)
     res = V.Result(prop, "quick", 0)
     prog, cfg = obj["program"], obj["config"]
     prog = copy.deepcopy(prog)
